@@ -51,6 +51,18 @@ MUTANTS = [
     ("lib_offset", "bitar/src/api/compress.rs", "archive_offset += use_data.len() as u64;", "archive_offset += verified.len() as u64;", ["C11"]),
     ("cli_dedup", "src/compress_cmd.rs", "                    unique_chunk_index += 1;\n                    (true, chunk_index)", "                    unique_chunk_index += 1;\n                    (true, unique_chunk_index)", ["C11"]),
     ("lib_params", "bitar/src/api/compress.rs", "            min_chunk_size: hash_config.min_chunk_size as u32,\n            max_chunk_size: hash_config.max_chunk_size as u32,\n            rolling_hash_window_size: hash_config.window_size as u32,\n            chunk_hash_length: options.chunk_hash_length as u32,\n            chunking_algorithm: chunk_dictionary::chunker_parameters::ChunkingAlgorithm::Rollsum", "            min_chunk_size: hash_config.max_chunk_size as u32,\n            max_chunk_size: hash_config.max_chunk_size as u32,\n            rolling_hash_window_size: hash_config.window_size as u32,\n            chunk_hash_length: options.chunk_hash_length as u32,\n            chunking_algorithm: chunk_dictionary::chunker_parameters::ChunkingAlgorithm::Rollsum", ["C11"]),
+    ("mask_shift", "bitar/src/chunker/config.rs", "!0 >> (32 - self.0)", "!0 >> (31 - self.0)", ["C09"]),
+    ("stream_tail_drop", "bitar/src/chunker/streaming_chunker.rs", "let last_chunk = if me.buf.is_empty() {", "let last_chunk = if me.buf.len() < 2 {", ["C09"]),
+    ("stream_eof_any", "bitar/src/chunker/streaming_chunker.rs", "                0 => {\n                    // End of file/reader.", "                0 | 1 => {\n                    // End of file/reader.", ["C09"]),
+    ("dict_total_size", "bitar/src/api/compress.rs", "source_total_size: source_length as u64,", "source_total_size: archive_offset,", ["C11"]),
+    ("dict_order_cli", "src/compress_cmd.rs", "rebuild_order: chunk_order.iter().map(|&index| index as u32).collect(),", "rebuild_order: chunk_order.iter().map(|&index| index as u32 + 0 * index as u32 + (index == 1) as u32).collect(),", ["C11"]),
+    ("remaining_hdr", "bitar/src/archive.rs", "dictionary_size.checked_add(8 + 64)", "dictionary_size.checked_add(8 + 32)", ["C15", "C04"]),
+    ("prealloc", "bitar/src/archive_reader/io_reader.rs", "BytesMut::with_capacity(std::cmp::min(size, MAX_PREALLOCATION))", "BytesMut::with_capacity(std::cmp::max(size, MAX_PREALLOCATION))", ["C15"]),
+    ("io_seek_arg", "bitar/src/archive_reader/io_reader.rs", "start_seek(io::SeekFrom::Start(read_at.offset))", "start_seek(io::SeekFrom::Start(read_at.offset + self.buf_offset as u64))", ["C08"]),
+    ("io_progress", "bitar/src/archive_reader/io_reader.rs", "Ok(()) => self.buf_offset += buf.filled().len(),", "Ok(()) => self.buf_offset = buf.filled().len(),", ["C08"]),
+    ("retry_budget", "bitar/src/archive_reader/http_range_request.rs", "                    if self.retry_count == 0 {\n                        return Poll::Ready(Some(Err(err)));", "                    if self.retry_count <= 1 {\n                        return Poll::Ready(Some(Err(err)));", ["C08"]),
+    ("desc_end_check", "bitar/src/archive.rs", "Some(offset) if offset.checked_add(dict.archive_size as u64).is_some() => offset,", "Some(offset) => offset,", ["C15"]),
+    ("verify_output", "src/clone_cmd.rs", "        if sum == *expected_checksum {", "        if sum == *expected_checksum || expected_checksum.len() < 64 {", ["C04"]),
     ("compression_level", "bitar/src/archive.rs", "        Ok(CompressionType::Brotli) => Ok(Some(Compression {\n            algorithm: CompressionAlgorithm::Brotli,\n            level: c.compression_level,", "        Ok(CompressionType::Brotli) => Ok(Some(Compression {\n            algorithm: CompressionAlgorithm::Brotli,\n            level: c.compression_level.min(11),", ["C11", "C17"]),
 ]
 
